@@ -327,7 +327,7 @@ func (c *ctl) build() {
 	cfg := c.cfg
 	nin := len(cfg.Inputs)
 	switch cfg.Kind {
-	case "Emit", "Unfold":
+	case "Emit", "Unfold", "Seq":
 		nin = 0
 	case "New":
 		nin = 1
@@ -346,6 +346,30 @@ func (c *ctl) build() {
 	ctx := c.ctx
 	freq := time.Duration(cfg.Freq) * Unit
 	switch {
+	case cfg.Kind == "Seq":
+		var out <-chan int
+		if cfg.Forked {
+			out = fork.Seq(cfg.Inputs[0]...)
+		} else {
+			out = pipe.Seq(cfg.Inputs[0]...)
+		}
+		c.addOut("out", intReader(out), func() int { return len(out) })
+	case cfg.Kind == "ToSeq":
+		// ToSeq blocks its caller: a harness goroutine calls it and then hands the slice over, element by element
+		out := make(chan int)
+		go func() {
+			var xs []int
+			if cfg.Forked {
+				xs = fork.ToSeq(in)
+			} else {
+				xs = pipe.ToSeq(in)
+			}
+			for _, x := range xs {
+				out <- x
+			}
+			close(out)
+		}()
+		c.addOut("out", intReader(out), func() int { return len(out) })
 	case cfg.Kind == "New":
 		rcv, snd := pipe.New[int](ctx, cfg.Cap)
 		// the send side is created by the library: use it as input 0
